@@ -766,6 +766,350 @@ theorem no_other_obtains_while_held_reachable (es0 es1 es2 : List Ev) (i j ttl t
   have hv := (held_until_unlock_or_expiry _ i es1 (inv_reachable es0) hi (keepsAlive_prefix i _ es1 _ hk)).1
   rw [lock_exclusive _ i j ttl td hv hg]
 
+/-! ### the renewal goroutine and the context `Lock` was called with (model part 3)
+
+The schedules now also contain the end (`ctxDone`) of the contexts the instances called `Lock` with, KV faults hitting
+a ticker, and the ticker itself is a goroutine that may or may not be running. -/
+
+theorem mem_startTicker {ts : List Nat} {i : Nat} (j : Nat) (h : i ∈ ts) : i ∈ startTicker ts j := by
+  unfold startTicker
+  by_cases hij : i = j
+  · subst hij; exact List.mem_cons_self
+  · exact List.mem_cons_of_mem _ (List.mem_filter.mpr ⟨h, by simpa using hij⟩)
+
+theorem mem_stopTicker {ts : List Nat} {i j : Nat} (h : i ∈ ts) (hij : i ≠ j) : i ∈ stopTicker ts j := by
+  unfold stopTicker
+  exact List.mem_filter.mpr ⟨h, by simpa using hij⟩
+
+section reqs
+variable (p : LeaseParent) (s : RSt) (i ttl d : Nat)
+
+theorem rstepP_tick : rstepP p s (.ev (.tick d)) = ({ s with lock := (lstep s.lock (.tick d)).1 }, .none) := rfl
+
+theorem rstepP_lockTry : rstepP p s (.ev (.lockTry i ttl)) =
+    ({ lock := (lstep s.lock (.lockTry i ttl)).1,
+       tickers := if (lstep s.lock (.lockTry i ttl)).2.isAcquired then startTicker s.tickers i else s.tickers },
+     (lstep s.lock (.lockTry i ttl)).2) := rfl
+
+theorem rstepP_renew_running (h : i ∈ s.tickers) : rstepP p s (.ev (.renew i ttl)) =
+    ({ lock := (lstep s.lock (.renew i ttl)).1,
+       tickers := if (lstep s.lock (.renew i ttl)).2.isRenewed then s.tickers else stopTicker s.tickers i },
+     (lstep s.lock (.renew i ttl)).2) := by
+  show (if i ∈ s.tickers then _ else _) = _
+  rw [if_pos h]
+
+/-- a goroutine that has ended renews nothing: no KV call, nothing changes -/
+theorem rstepP_renew_stopped (h : i ∉ s.tickers) : rstepP p s (.ev (.renew i ttl)) = (s, .none) := by
+  show (if i ∈ s.tickers then _ else _) = _
+  rw [if_neg h]
+
+theorem rstepP_unlock : rstepP p s (.ev (.unlock i)) =
+    ({ lock := (lstep s.lock (.unlock i)).1,
+       tickers := if (lstep s.lock (.unlock i)).2 = .notHolder then s.tickers else stopTicker s.tickers i },
+     (lstep s.lock (.unlock i)).2) := rfl
+
+theorem rstepP_renewLock (dur : Int) : rstepP p s (.ev (.renewLock i dur ttl)) =
+    ({ s with lock := (lstep s.lock (.renewLock i dur ttl)).1 }, (lstep s.lock (.renewLock i dur ttl)).2) := rfl
+
+theorem rstepP_kvFault : rstepP p s (.kvFault i) = ({ s with tickers := stopTicker s.tickers i }, .none) := rfl
+
+/-- **the code**: the end of the context `Lock` was called with reaches nothing — the lease holder's lifetime
+context descends from `context.Background()` -/
+theorem ctxDone_changes_nothing : rstep s (.ctxDone i) = (s, .none) := rfl
+
+/-- had the lifetime context been derived from the caller's context, its end would stop the renewals -/
+theorem ctxDone_acquireCtx : rstepP .acquireCtx s (.ctxDone i) = ({ s with tickers := stopTicker s.tickers i }, .none) := rfl
+end reqs
+
+/-- the lock part of an extended step is unchanged, or it is the part-2 step of the same event -/
+theorem rstepP_lock (p : LeaseParent) (s : RSt) (e : REv) :
+    (rstepP p s e).1.lock = s.lock ∨ ∃ e', e = .ev e' ∧ (rstepP p s e).1.lock = (lstep s.lock e').1 := by
+  cases e with
+  | ev e' =>
+    cases e' with
+    | tick d => right; exact ⟨_, rfl, rfl⟩
+    | lockTry i ttl => right; exact ⟨_, rfl, rfl⟩
+    | renew i ttl =>
+      by_cases h : i ∈ s.tickers
+      · right; exact ⟨_, rfl, by rw [rstepP_renew_running p s i ttl h]⟩
+      · left; rw [rstepP_renew_stopped p s i ttl h]
+    | renewLock i dur ttl => right; exact ⟨_, rfl, rfl⟩
+    | unlock i => right; exact ⟨_, rfl, rfl⟩
+  | kvFault i => left; rfl
+  | ctxDone i => left; cases p <;> rfl
+
+theorem rinv_step (p : LeaseParent) (s : RSt) (e : REv) (h : Inv s.lock) : Inv (rstepP p s e).1.lock := by
+  rcases rstepP_lock p s e with h1 | ⟨e', _, h1⟩
+  · rw [h1]; exact h
+  · rw [h1]; exact inv_step _ _ h
+
+/-- the lease invariant survives every extended schedule, whatever the lifetime context descends from -/
+theorem rinv_reachable (p : LeaseParent) (es : List REv) : Inv (rrunP p {} es).lock := by
+  suffices ∀ s : RSt, Inv s.lock → Inv (rrunP p s es).lock from this _ inv_init
+  induction es with
+  | nil => intro s h; exact h
+  | cons e es ih => intro s h; exact ih _ (rinv_step p s e h)
+
+/-- **C49 (locks, mutual exclusion) over the extended schedules**: contexts ending, tickers stopping, KV faults —
+at most one instance validly holds the lock. (This part does not depend on the lifetime context's parent: what
+depends on it is how long a holder KEEPS the lock, below.) -/
+theorem r_holders_exclusive (p : LeaseParent) (es : List REv) (i j : Nat)
+    (hi : ValidHolds (rrunP p {} es).lock i) (hj : ValidHolds (rrunP p {} es).lock j) : i = j := by
+  obtain ⟨a, ha, hal, hat⟩ := hi
+  obtain ⟨b, hb, hbl, _⟩ := hj
+  rcases rinv_reachable p es i a ha with h | ⟨_, h⟩
+  · omega
+  · exact (h j b hb hbl).symm
+
+/-- a step that neither unlocks `i` nor lets its lease run out nor breaks its ticker from outside. The end of the
+context `i` (or anybody) called `Lock` with is NOT among the things that must not happen. -/
+def RHarmless (i : Nat) (s : RSt) : REv → Prop
+  | .ev (.tick d) => s.lock.now + d < s.lock.lease
+  | .ev (.unlock j) => j ≠ i
+  | .ev (.renew j ttl) => j = i → (durationGuard ttl).isSome    -- `i` renews with its configured TTL (≥ 1 s: it acquired with it)
+  | .ev (.lockTry _ _) => True
+  | .ev (.renewLock _ _ _) => True
+  | .kvFault j => j ≠ i
+  | .ctxDone _ => True
+
+instance (i : Nat) (s : RSt) (e : REv) : Decidable (RHarmless i s e) := by
+  cases e with
+  | ev e' => cases e' <;> unfold RHarmless <;> infer_instance
+  | kvFault j => unfold RHarmless; infer_instance
+  | ctxDone j => unfold RHarmless; infer_instance
+
+theorem harmless_of_rharmless {i : Nat} {s : RSt} {e : Ev} (h : RHarmless i s (.ev e)) : Harmless i s.lock e := by
+  cases e with
+  | tick d => exact h
+  | unlock j => exact h
+  | lockTry j ttl => trivial
+  | renew j ttl => trivial
+  | renewLock j dur ttl => trivial
+
+def RKeepsAlive (i : Nat) : RSt → List REv → Prop
+  | _, [] => True
+  | s, e :: es => RHarmless i s e ∧ RKeepsAlive i (rstep s e).1 es
+
+instance instDecRKeepsAlive (i : Nat) : (s : RSt) → (es : List REv) → Decidable (RKeepsAlive i s es)
+  | _, [] => isTrue trivial
+  | s, e :: es =>
+    have := instDecRKeepsAlive i (rstep s e).1 es
+    (inferInstance : Decidable (RHarmless i s e ∧ RKeepsAlive i (rstep s e).1 es))
+
+/-- the ticker's renewal of a valid holder is accepted (so the goroutine goes on) -/
+theorem renew_of_validHolds (s : LockSt) (i ttl td : Nat) (hi : ValidHolds s i) (hg : durationGuard ttl = some td) :
+    lstep s (.renew i ttl) =
+      ({ s with lease := s.now + td, holders := setHolder s.holders i (s.now + td) }, .renewed (s.now + td)) := by
+  obtain ⟨tok, hh, hl, hn⟩ := hi
+  exact lstep_renew_ok s i ttl td tok hh hg (by omega) (by omega) hl.symm
+
+/-- one harmless step: the holder stays a valid holder AND its renewal goroutine keeps running -/
+theorem holder_step (s : RSt) (i : Nat) (e : REv) (hinv : Inv s.lock) (hv : ValidHolds s.lock i)
+    (ht : i ∈ s.tickers) (he : RHarmless i s e) :
+    ValidHolds (rstep s e).1.lock i ∧ i ∈ (rstep s e).1.tickers := by
+  constructor
+  · rcases rstepP_lock leaseParent s e with h1 | ⟨e', hee, h1⟩
+    · show ValidHolds (rstepP leaseParent s e).1.lock i
+      rw [h1]; exact hv
+    · show ValidHolds (rstepP leaseParent s e).1.lock i
+      rw [h1]; subst hee
+      exact validHolds_step s.lock i e' hinv hv (harmless_of_rharmless he)
+  · show i ∈ (rstepP leaseParent s e).1.tickers
+    cases e with
+    | ev e' =>
+      cases e' with
+      | tick d => rw [rstepP_tick]; exact ht
+      | lockTry j ttl =>
+        rw [rstepP_lockTry]
+        show i ∈ (if _ then _ else _)
+        split
+        · exact mem_startTicker j ht
+        · exact ht
+      | renew j ttl =>
+        by_cases hj : j ∈ s.tickers
+        · rw [rstepP_renew_running _ s j ttl hj]
+          show i ∈ (if _ then _ else _)
+          by_cases hji : j = i
+          · subst hji
+            have hsome : (durationGuard ttl).isSome := he rfl
+            obtain ⟨td, hg⟩ := Option.isSome_iff_exists.mp hsome
+            rw [renew_of_validHolds s.lock j ttl td hv hg]
+            exact ht
+          · split
+            · exact ht
+            · exact mem_stopTicker ht (fun e => hji e.symm)
+        · rw [rstepP_renew_stopped _ s j ttl hj]; exact ht
+      | renewLock j dur ttl => rw [rstepP_renewLock]; exact ht
+      | unlock j =>
+        have hji : j ≠ i := he
+        rw [rstepP_unlock]
+        show i ∈ (if _ then _ else _)
+        split
+        · exact ht
+        · exact mem_stopTicker ht (fun e => hji e.symm)
+    | kvFault j =>
+      have hji : j ≠ i := he
+      rw [rstepP_kvFault]
+      exact mem_stopTicker ht (fun e => hji e.symm)
+    | ctxDone j => exact ht
+
+/-- **C49 (locks: held until unlocked or expired, with the goroutine).** From any state in which `i` validly holds
+the lock and its renewal goroutine runs, after EVERY schedule — lock attempts, ticker periods, explicit renewals and
+unlocks of any instances, KV faults hitting other instances' tickers, and the END OF ANY CONTEXT `Lock` WAS CALLED
+WITH, `i`'s own included — in which `i` does not unlock and time does not reach the expiry of the then-current lease,
+`i` still validly holds the lock and its goroutine still runs. -/
+theorem held_with_ticker (s : RSt) (i : Nat) (es : List REv) (hinv : Inv s.lock) (hv : ValidHolds s.lock i)
+    (ht : i ∈ s.tickers) (hk : RKeepsAlive i s es) :
+    ValidHolds (rrun s es).lock i ∧ i ∈ (rrun s es).tickers ∧ Inv (rrun s es).lock := by
+  induction es generalizing s with
+  | nil => exact ⟨hv, ht, hinv⟩
+  | cons e es ih =>
+    have h := holder_step s i e hinv hv ht hk.1
+    exact ih (rstep s e).1 (rinv_step leaseParent s e hinv) h.1 h.2 hk.2
+
+theorem rkeepsAlive_prefix (i : Nat) (s : RSt) (es1 es2 : List REv) (h : RKeepsAlive i s (es1 ++ es2)) :
+    RKeepsAlive i s es1 := by
+  induction es1 generalizing s with
+  | nil => trivial
+  | cons e es ih => exact ⟨h.1, ih _ h.2⟩
+
+/-- **C49 (locks, the statement, over the extended schedules).** While `i` holds the lock — whatever became of
+the context it acquired it with — every lock attempt of every instance is refused and changes nothing. -/
+theorem r_no_other_obtains_while_held (s : RSt) (i j ttl : Nat) (es1 es2 : List REv) (hinv : Inv s.lock)
+    (hv : ValidHolds s.lock i) (ht : i ∈ s.tickers) (hk : RKeepsAlive i s (es1 ++ .ev (.lockTry j ttl) :: es2)) :
+    rstep (rrun s es1) (.ev (.lockTry j ttl)) = (rrun s es1, .conflict) ∨
+    rstep (rrun s es1) (.ev (.lockTry j ttl)) = (rrun s es1, .invalidTTL) := by
+  have hv' := (held_with_ticker s i es1 hinv hv ht (rkeepsAlive_prefix i s es1 _ hk)).1
+  show rstepP leaseParent _ _ = _ ∨ rstepP leaseParent _ _ = _
+  rw [rstepP_lockTry]
+  cases hg : durationGuard ttl with
+  | none => right; rw [lstep_lockTry_invalid _ j ttl hg]; rfl
+  | some td => left; rw [lock_exclusive _ i j ttl td hv' hg]; rfl
+
+/-- the lock behaviour does not depend on the lifetime of the acquiring contexts at all: deleting every `ctxDone`
+from a schedule gives the same state -/
+def REv.isCtxDone : REv → Bool
+  | .ctxDone _ => true
+  | _ => false
+
+theorem acquire_ctx_irrelevant (s : RSt) (es : List REv) :
+    rrun s es = rrun s (es.filter (fun e => !e.isCtxDone)) := by
+  induction es generalizing s with
+  | nil => rfl
+  | cons e es ih =>
+    cases e with
+    | ctxDone i =>
+      show rrun (rstep s (.ctxDone i)).1 es = _
+      rw [ctxDone_changes_nothing]
+      simpa [REv.isCtxDone] using ih s
+    | ev e' =>
+      have : ((REv.ev e') :: es).filter (fun e => !e.isCtxDone) = .ev e' :: es.filter (fun e => !e.isCtxDone) := by
+        simp [REv.isCtxDone]
+      rw [this]; exact ih _
+    | kvFault i =>
+      have : ((REv.kvFault i) :: es).filter (fun e => !e.isCtxDone) = .kvFault i :: es.filter (fun e => !e.isCtxDone) := by
+        simp [REv.isCtxDone]
+      rw [this]; exact ih _
+
+/-! the ticker discharges the "time does not reach the expiry" hypothesis: rounds of a live holder. In each round
+some time `d` shorter than the lease passes, then any number of contexts end and contenders try to lock, then
+`i`'s ticker period elapses. -/
+
+/-- events that happen "in between": contexts ending (anybody's), lock attempts (anybody's) -/
+def Quiet : REv → Prop
+  | .ctxDone _ => True
+  | .ev (.lockTry _ _) => True
+  | _ => False
+
+instance : DecidablePred Quiet := fun e => by
+  cases e with
+  | ev e' => cases e' <;> unfold Quiet <;> infer_instance
+  | kvFault j => unfold Quiet; infer_instance
+  | ctxDone j => unfold Quiet; infer_instance
+
+def tickerRounds (i ttl : Nat) : List (Nat × List REv) → List REv
+  | [] => []
+  | (d, cs) :: rs => .ev (.tick d) :: (cs ++ .ev (.renew i ttl) :: tickerRounds i ttl rs)
+
+/-- a quiet event changes nothing while somebody validly holds the lock, and is harmless -/
+theorem quiet_step (s : RSt) (i : Nat) (e : REv) (hv : ValidHolds s.lock i) (hq : Quiet e) :
+    (rstep s e).1 = s ∧ RHarmless i s e := by
+  cases e with
+  | ctxDone j => exact ⟨rfl, trivial⟩
+  | kvFault j => exact absurd hq (by simp [Quiet])
+  | ev e' =>
+    cases e' with
+    | lockTry j ttl =>
+      refine ⟨?_, trivial⟩
+      show (rstepP leaseParent s _).1 = s
+      rw [rstepP_lockTry]
+      cases hg : durationGuard ttl with
+      | none => rw [lstep_lockTry_invalid _ j ttl hg]; rfl
+      | some td => rw [lock_exclusive _ i j ttl td hv hg]; rfl
+    | tick d => exact absurd hq (by simp [Quiet])
+    | renew j ttl => exact absurd hq (by simp [Quiet])
+    | renewLock j dur ttl => exact absurd hq (by simp [Quiet])
+    | unlock j => exact absurd hq (by simp [Quiet])
+
+theorem rkeepsAlive_quiet_append (s : RSt) (i : Nat) (cs rest : List REv) (hv : ValidHolds s.lock i)
+    (hq : ∀ e ∈ cs, Quiet e) (hr : RKeepsAlive i s rest) : RKeepsAlive i s (cs ++ rest) := by
+  induction cs with
+  | nil => exact hr
+  | cons e cs ih =>
+    obtain ⟨hs, hh⟩ := quiet_step s i e hv (hq e List.mem_cons_self)
+    refine ⟨hh, ?_⟩
+    rw [hs]
+    exact ih (fun e' he' => hq e' (List.mem_cons_of_mem _ he'))
+
+/-- **a live holder keeps the lock by its ticker alone.** `i` validly holds a lease that still has a full period
+to go (`now + td ≤ lease`: true right after `Lock` and after every renewal) and its goroutine runs. Then every
+schedule of rounds "less than a lease of time passes; contexts end — `i`'s acquiring context too —, contenders try;
+the ticker period elapses" keeps `i` alive: all hypotheses of `held_with_ticker` / `r_no_other_obtains_while_held`
+hold, with no assumption about the lease left other than the ticker's period being shorter than the TTL. -/
+theorem ticker_rounds_keepAlive (i ttl td : Nat) (hg : durationGuard ttl = some td) (rs : List (Nat × List REv))
+    (hd : ∀ r ∈ rs, r.1 < td) (hq : ∀ r ∈ rs, ∀ e ∈ r.2, Quiet e)
+    (s : RSt) (hinv : Inv s.lock) (hv : ValidHolds s.lock i) (ht : i ∈ s.tickers)
+    (hfresh : s.lock.now + td ≤ s.lock.lease) :
+    RKeepsAlive i s (tickerRounds i ttl rs) := by
+  induction rs generalizing s with
+  | nil => trivial
+  | cons r rs ih =>
+    obtain ⟨d, cs⟩ := r
+    have hdr : d < td := hd (d, cs) List.mem_cons_self
+    have hqr : ∀ e ∈ cs, Quiet e := hq (d, cs) List.mem_cons_self
+    -- time passes
+    have hT : RHarmless i s (.ev (.tick d)) := by show s.lock.now + d < s.lock.lease; omega
+    have h1 := holder_step s i _ hinv hv ht hT
+    have hinv1 := rinv_step leaseParent s (.ev (.tick d)) hinv
+    refine ⟨hT, ?_⟩
+    generalize hs1 : (rstep s (.ev (.tick d))).1 = s1 at h1 hinv1 ⊢
+    have hinv1' : Inv s1.lock := by rw [← hs1]; exact hinv1
+    -- quiet events, then the ticker
+    apply rkeepsAlive_quiet_append s1 i cs _ h1.1 hqr
+    have hR : RHarmless i s1 (.ev (.renew i ttl)) := by
+      intro _; rw [hg]; rfl
+    refine ⟨hR, ?_⟩
+    have h2 := holder_step s1 i _ hinv1' h1.1 h1.2 hR
+    have hinv2 := rinv_step leaseParent s1 (.ev (.renew i ttl)) hinv1'
+    have hfresh2 : (rstep s1 (.ev (.renew i ttl))).1.lock.now + td ≤ (rstep s1 (.ev (.renew i ttl))).1.lock.lease := by
+      show (rstepP leaseParent s1 _).1.lock.now + td ≤ (rstepP leaseParent s1 _).1.lock.lease
+      rw [rstepP_renew_running _ s1 i ttl h1.2, renew_of_validHolds s1.lock i ttl td h1.1 hg]
+      exact Nat.le_refl _
+    exact ih (fun r hr => hd r (List.mem_cons_of_mem _ hr)) (fun r hr => hq r (List.mem_cons_of_mem _ hr))
+      _ hinv2 h2.1 h2.2 hfresh2
+
+/-- … hence in such a run every lock attempt, wherever it falls, is refused -/
+theorem ticker_rounds_exclude (i ttl td : Nat) (hg : durationGuard ttl = some td) (rs : List (Nat × List REv))
+    (hd : ∀ r ∈ rs, r.1 < td) (hq : ∀ r ∈ rs, ∀ e ∈ r.2, Quiet e)
+    (s : RSt) (hinv : Inv s.lock) (hv : ValidHolds s.lock i) (ht : i ∈ s.tickers)
+    (hfresh : s.lock.now + td ≤ s.lock.lease)
+    (es1 es2 : List REv) (j ttl' : Nat) (hsplit : tickerRounds i ttl rs = es1 ++ .ev (.lockTry j ttl') :: es2) :
+    rstep (rrun s es1) (.ev (.lockTry j ttl')) = (rrun s es1, .conflict) ∨
+    rstep (rrun s es1) (.ev (.lockTry j ttl')) = (rrun s es1, .invalidTTL) := by
+  have hk := ticker_rounds_keepAlive i ttl td hg rs hd hq s hinv hv ht hfresh
+  rw [hsplit] at hk
+  exact r_no_other_obtains_while_held s i j ttl' es1 es2 hinv hv ht hk
+
 /-! ## non-vacuity -/
 
 -- the repaired listing on the formerly failing input: keys a/b, a/b/x, a/b/y/z, a/bc/q
@@ -805,5 +1149,42 @@ example :
     ValidHolds (lrun s [.renew 2 second, .renewLock 2 (-1) second, .unlock 2, .tick second]) 1 := by
   refine ⟨⟨3000000000, by decide, by decide, by decide⟩, by decide, ⟨3000000000, by decide, by decide, by decide⟩⟩
 example : durationGuard (2*second) = some (2*second) := by decide
+
+
+-- part 3. A (ttl 1 s) locks with a request-scoped context that ends 0.1 s later; its ticker fires every 0.25 s;
+-- B tries at 0.6 s, 1.1 s (after the FIRST lease would have run out) and 1.6 s: refused each time; A still holds
+-- and its goroutine still runs after 1.85 s. The schedule is an instance of `tickerRounds`.
+def demoRounds : List (Nat × List REv) :=
+  [(second/10, [.ctxDone 1]), (second/4, []), (second/4, [.ev (.lockTry 2 second)]), (second/4, []),
+   (second/4, [.ev (.lockTry 2 second), .ctxDone 2]), (second/4, []), (second/4, [.ev (.lockTry 2 second)]), (second/4, [])]
+
+example :
+    let s := rrun {} [.ev (.lockTry 1 second)]
+    ValidHolds s.lock 1 ∧ 1 ∈ s.tickers ∧ s.lock.now + second ≤ s.lock.lease ∧
+    (∀ r ∈ demoRounds, r.1 < second) ∧ (∀ r ∈ demoRounds, ∀ e ∈ r.2, Quiet e) ∧
+    RKeepsAlive 1 s (tickerRounds 1 second demoRounds) ∧
+    ValidHolds (rrun s (tickerRounds 1 second demoRounds)).lock 1 ∧ 1 ∈ (rrun s (tickerRounds 1 second demoRounds)).tickers := by
+  refine ⟨⟨1000000000, by decide, by decide, by decide⟩, by decide, by decide, by decide, by decide, by decide,
+    ⟨2850000000, by decide, by decide, by decide⟩, by decide⟩
+-- SENSITIVITY: what the property needs from `startLeaseRenewal`. The same schedule under a lifetime context derived
+-- from the caller's context: the goroutine ends with the acquiring context, the lease lapses, and B's attempt at
+-- 1.1 s SUCCEEDS although A never unlocked and no KV call failed; under the code's `context.Background()` it is refused
+def demoPrefix : List REv :=
+  [.ev (.lockTry 1 second), .ev (.tick (second/10)), .ctxDone 1, .ev (.renew 1 second), .ev (.tick (second/4)),
+   .ev (.renew 1 second), .ev (.tick (second/4)), .ev (.renew 1 second), .ev (.tick (second/4)), .ev (.renew 1 second),
+   .ev (.tick (second/4))]
+example :
+    (rstepP .acquireCtx (rrunP .acquireCtx {} demoPrefix) (.ev (.lockTry 2 second))).2 = .acquired 2100000000 ∧
+    (1 ∉ (rrunP .acquireCtx {} demoPrefix).tickers) ∧
+    (rrunP .acquireCtx {} demoPrefix).lock.holder 1 = some 1000000000 ∧     -- A still believes it holds the lock
+    (rstep (rrun {} demoPrefix) (.ev (.lockTry 2 second))).2 = .conflict ∧
+    1 ∈ (rrun {} demoPrefix).tickers := by
+  refine ⟨by decide, by decide, by decide, by decide, by decide⟩
+-- a ticker stops for good after ONE failed renewal (injected KV fault), and only an `Unlock` + `Lock` restarts it
+example :
+    let s := rrun {} [.ev (.lockTry 1 second), .kvFault 1, .ev (.tick (second/4)), .ev (.renew 1 second)]
+    1 ∉ s.tickers ∧ s.lock.lease = second ∧ s.lock.holder 1 = some second := by decide
+example : rrun {} demoPrefix = rrun {} (demoPrefix.filter (fun e => !e.isCtxDone)) ∧ (demoPrefix.filter (fun e => !e.isCtxDone)).length + 1 = demoPrefix.length :=
+  ⟨acquire_ctx_irrelevant {} demoPrefix, by decide⟩
 
 end Specter.C49
